@@ -783,6 +783,9 @@ func execServer(desc string) string {
 				sc.settle()
 				types, sizes, alerts, accepted := absorb(before)
 				k := atomic.LoadInt64(&keyOps)
+				// past the cookie gate: a ServerHello, or the per-client Config was selected (that happens only
+				// for a cookie-verified hello) even if the hello then fails negotiation with an alert
+				accepted = accepted || atomic.LoadInt64(&cbCalls) > cbBefore
 				if accepted {
 					rs = append(rs, "acc")
 					flight = fmt.Sprintf("%s/%d", joinInts(types), k)
@@ -839,6 +842,7 @@ func execServer(desc string) string {
 		sc.settle()
 		types, sizes, alerts, accepted := absorb(before)
 		k := atomic.LoadInt64(&keyOps)
+		accepted = accepted || atomic.LoadInt64(&cbCalls) > cbBefore // past the cookie gate (see above)
 		if !accepted {
 			cbBefore = atomic.LoadInt64(&cbCalls)
 		}
